@@ -1499,6 +1499,9 @@ class SpaceManager(SharedSpaceOperations):
     def new_ref(self, space, name, value, refmode):
 
         for subspace in self._get_subs(space, skip_self=False):
+            if name in subspace.cells or name in subspace.named_spaces:
+                # Can be hidden by a global reference in the namespace
+                raise ValueError("Cannot create reference '%s'" % name)
             if name in subspace.namespace:
                 other = subspace._namespace.fresh[name]
                 if not isinstance(other, ReferenceImpl):
